@@ -20,6 +20,9 @@ pub enum DamageKind {
     ClearWritten,
     /// overwrite the whole header (83 bytes) with zeros
     ZeroHeader,
+    /// `n` bytes of `fill` appended behind the last section (what a shorter rewrite over a longer old file, or a
+    /// pre-allocating file system, leaves behind): bytes that are not recomputed from the blob
+    Append { n: u16, fill: u8 },
 }
 
 #[derive(Clone, Debug, PartialEq, Eq, Serialize, Deserialize)]
@@ -90,6 +93,14 @@ pub enum Op {
     Fail { kind: FailKind, on_index: bool, nth: u16, eio: bool, short: Option<u16> },
     /// run `victim` but drop its future after `k` resumptions
     Cancel { victim: Box<Op>, k: u16 },
+    /// the storage object is dropped WITHOUT `close()` once nothing is in flight (what a killed process leaves, minus the
+    /// kill: all acknowledged bytes are in the files / page cache, nothing was synced or dumped on the way out), then a new
+    /// one is built on the directory and initialised
+    Abandon { lazy: bool },
+    /// a query whose answer is not looked at (the checks after the step do that): 0 read, 1 read_all_with_deletion_marker
+    /// with every entry loaded, 2 contains, 3 read_with(first pool meta), 4 check_filters. Exists so that queries can be
+    /// cancellation victims and concurrent partners
+    Probe { key: u8, kind: u8 },
 }
 
 impl Op {
@@ -114,6 +125,8 @@ impl Op {
             Op::CrashReopen { .. } => "crash_reopen",
             Op::Fail { .. } => "fail",
             Op::Cancel { .. } => "cancel",
+            Op::Probe { .. } => "probe",
+            Op::Abandon { .. } => "abandon",
         }
     }
 }
@@ -325,6 +338,7 @@ pub fn damage_strategy() -> BoxedStrategy<Damage> {
         8 => (0u8..10, any::<u16>()).prop_map(|(class, frac)| DamageKind::Truncate { class, frac }),
         2 => Just(DamageKind::ClearWritten),
         1 => Just(DamageKind::ZeroHeader),
+        2 => (prop_oneof![1u16..200, 200u16..9000], prop_oneof![Just(0u8), Just(0xA5u8), any::<u8>()]).prop_map(|(n, fill)| DamageKind::Append { n, fill }),
     ];
     (any::<u16>(), kind).prop_map(|(sel, kind)| Damage { sel, kind }).boxed()
 }
@@ -491,6 +505,8 @@ pub fn render_ops(ops: &[Op]) -> Vec<String> {
             Op::ForceUpdate(p) => format!("force_update({:?})", p),
             Op::Offload { level, need } => format!("offload(l{}, needed={})", level, offload_needed(*need)),
             Op::Cancel { victim, k } => format!("cancel({} after {})", victim.name(), k),
+            Op::Abandon { lazy } => format!("drop-without-close+init(lazy={})", lazy),
+            Op::Probe { key, kind } => format!("probe(k{}, {})", key, ["read", "read_all_dm+load", "contains", "read_with", "check_filters"][(*kind as usize).min(4)]),
             Op::Burst { n, vlen } => format!("burst({}x{})", n, fmt_vlen(*vlen)),
             Op::CrashReopen { lazy, damage } => format!("crash_reopen(lazy={},{:?})", lazy, damage.iter().map(|d| format!("{:?}", d.kind)).collect::<Vec<_>>()),
             Op::Fail { kind, on_index, nth, eio, short } => format!("fail({:?},{},n={},{},short={:?})", kind, if *on_index { "index" } else { "blob" }, nth, if *eio { "EIO" } else { "ENOSPC" }, short),
